@@ -1,2 +1,571 @@
 // Package c14 holds the workload and monitor for property C14 (see /verif/DESIGN.md §3).
 package c14
+
+import (
+	"reflect"
+	"sort"
+	"strings"
+)
+
+// ---- document model (the printer's own; nothing from hclwrite / gohcl) ----
+
+type span struct{ s, e int }
+
+type node interface{ isNode() }
+
+type attrNode struct {
+	sch        *attrSchema // nil: not in the schema (fault injection)
+	name       string
+	expr       string // the expression text, verbatim
+	heredocEnd bool   // expr ends with a heredoc closer: nothing may follow on that line
+	path       vpath
+	kind       string // field kind for signatures
+	spell      string
+	sp         span
+}
+
+type blockNode struct {
+	sch    *blockSchema // nil: unknown block type
+	typ    string
+	labels []string // rendered label tokens
+	body   *bodyNode
+	path   vpath
+	sp     span
+}
+
+type triviaNode struct{ text string }
+
+func (*attrNode) isNode()   {}
+func (*blockNode) isNode()  {}
+func (*triviaNode) isNode() {}
+
+type bodyNode struct {
+	ss      *structSchema
+	items   []node
+	oneLine bool
+}
+
+// spellRec remembers how each value was spelled (for signatures and minimisation).
+type spellRec struct {
+	kind  string // string | int | uint | bool | list | map | label | list-string | map-string | map-key ...
+	spell string
+	text  string
+}
+
+type builder struct {
+	sp       *speller
+	rng      interface{ Intn(int) int }
+	spells   map[string]spellRec
+	override map[string]string // path -> verbatim expression / label text (minimisation)
+	ovSpell  map[string]string
+	obs      func(string)
+	nblocks  int
+}
+
+func (b *builder) rec(p vpath, kind, spell, text string) {
+	if b.spells != nil {
+		b.spells[p.String()] = spellRec{kind, spell, text}
+	}
+	if b.obs != nil {
+		b.obs("fk:" + kind)
+	}
+}
+
+func endsWithHeredoc(kind string) bool { return kind == "heredoc" || kind == "heredoc-flush" }
+
+func (b *builder) prim(v reflect.Value, k fkind, p vpath, kindName string, oneLine bool) (text, spell string) {
+	if t, ok := b.override[p.String()]; ok {
+		spell = b.ovSpell[p.String()]
+		b.rec(p, kindName, spell, t)
+		return t, spell
+	}
+	switch k {
+	case kString:
+		t, sk, _ := b.sp.str(v.String(), ctxAttr, oneLine, "")
+		b.sp.note(sk)
+		b.rec(p, kindName, sk, t)
+		return t, sk
+	case kBool:
+		t, sk := b.sp.boolean(v.Bool(), "")
+		b.sp.note("bool-" + sk)
+		b.rec(p, kindName, sk, t)
+		return t, sk
+	case kInt:
+		i := v.Int()
+		neg := i < 0
+		mag := uint64(i)
+		if neg {
+			mag = uint64(-(i + 1)) + 1
+		}
+		t, sk := b.sp.integer(neg, mag, "")
+		b.sp.note("int-" + sk)
+		b.rec(p, kindName, sk, t)
+		return t, sk
+	case kUint:
+		t, sk := b.sp.integer(false, v.Uint(), "")
+		b.sp.note("int-" + sk)
+		b.rec(p, kindName, sk, t)
+		return t, sk
+	}
+	panic("c14: prim kind")
+}
+
+func elemKindName(prefix string, k fkind) string { return prefix + "-" + k.String() }
+
+func (b *builder) attrExpr(a *attrSchema, fv reflect.Value, p vpath, oneLine bool) (expr, spell string, heredocEnd bool) {
+	sp := b.sp
+	nl := sp.nl
+	switch a.kind {
+	case kList:
+		n := fv.Len()
+		if n == 0 {
+			t := []string{"[]", "[ ]", "[" + nl + "]", "[" + nl + sp.ws(0, 4) + "# none" + nl + "]"}[b.rng.Intn(4)]
+			if oneLine || sp.plain {
+				t = "[]"
+			}
+			sp.note("list-empty")
+			b.rec(p, "list", "l-empty", t)
+			return t, "l-empty", false
+		}
+		multi := !oneLine && !sp.plain && b.rng.Intn(2) == 0
+		var sb strings.Builder
+		sb.WriteByte('[')
+		for i := 0; i < n; i++ {
+			et, esp := b.prim(fv.Index(i), a.elem, p.elem(i), elemKindName("list", a.elem), !multi)
+			if multi {
+				sb.WriteString(nl + sp.ws(0, 8))
+			} else if i > 0 {
+				sb.WriteString(sp.ws(0, 2))
+			}
+			sb.WriteString(et)
+			last := i == n-1
+			if endsWithHeredoc(esp) {
+				sb.WriteString(nl)
+				if !last || b.rng.Intn(2) == 0 {
+					sb.WriteString(sp.ws(0, 4) + ",")
+				}
+			} else if !last || (!sp.plain && b.rng.Intn(3) == 0) {
+				sb.WriteString(sp.ws(0, 1) + ",")
+			}
+			if multi && !sp.plain && b.rng.Intn(5) == 0 {
+				sb.WriteString(" " + sp.lineComment())
+				// the comment ends at the line end; the next element starts a new line anyway
+			}
+		}
+		if multi {
+			sb.WriteString(nl + sp.ws(0, 4))
+		}
+		sb.WriteByte(']')
+		k := "l-one"
+		if multi {
+			k = "l-multi"
+		}
+		sp.note("list-" + k)
+		b.rec(p, "list", k, "")
+		return sb.String(), k, false
+	case kMap:
+		keys := make([]string, 0, fv.Len())
+		for _, kv := range fv.MapKeys() {
+			keys = append(keys, kv.String())
+		}
+		sort.Strings(keys)
+		if len(keys) == 0 {
+			t := []string{"{}", "{ }", "{" + nl + "}"}[b.rng.Intn(3)]
+			if oneLine || sp.plain {
+				t = "{}"
+			}
+			sp.note("map-empty")
+			b.rec(p, "map", "m-empty", t)
+			return t, "m-empty", false
+		}
+		// source order of the entries is free
+		if !sp.plain {
+			for i := len(keys) - 1; i > 0; i-- {
+				j := b.rng.Intn(i + 1)
+				keys[i], keys[j] = keys[j], keys[i]
+			}
+		}
+		multi := !oneLine && !sp.plain && b.rng.Intn(2) == 0
+		var sb strings.Builder
+		sb.WriteByte('{')
+		for i, k := range keys {
+			ep := p.keyed(k)
+			kt, ksp, _ := sp.str(k, ctxKey, true, "")
+			if ot, ok := b.override[ep.String()+"#key"]; ok {
+				kt, ksp = ot, b.ovSpell[ep.String()+"#key"]
+			}
+			sp.note("key-" + ksp)
+			if b.spells != nil {
+				b.spells[ep.String()+"#key"] = spellRec{"map-key", ksp, kt}
+			}
+			vt, vsp := b.prim(fv.MapIndex(reflect.ValueOf(k).Convert(a.typ.Key())), a.elem, ep, elemKindName("map", a.elem), !multi)
+			if multi {
+				sb.WriteString(nl + sp.ws(0, 8))
+			} else {
+				sb.WriteString(sp.ws(0, 1))
+			}
+			sb.WriteString(kt)
+			eq := "="
+			if !sp.plain && b.rng.Intn(4) == 0 {
+				eq = ":"
+			}
+			sb.WriteString(sp.ws(0, 2) + eq + sp.ws(0, 2))
+			sb.WriteString(vt)
+			last := i == len(keys)-1
+			switch {
+			case endsWithHeredoc(vsp):
+				sb.WriteString(nl) // the newline is the separator
+			case multi:
+				if b.rng.Intn(2) == 0 {
+					sb.WriteString(",")
+				}
+				if b.rng.Intn(6) == 0 {
+					sb.WriteString(" " + sp.lineComment())
+				}
+			default:
+				if !last || (!sp.plain && b.rng.Intn(4) == 0) {
+					sb.WriteString(",")
+				}
+			}
+		}
+		if multi {
+			sb.WriteString(nl + sp.ws(0, 4))
+		} else {
+			sb.WriteString(sp.ws(0, 1))
+		}
+		sb.WriteByte('}')
+		k := "m-one"
+		if multi {
+			k = "m-multi"
+		}
+		sp.note("map-" + k)
+		b.rec(p, "map", k, "")
+		return sb.String(), k, false
+	default:
+		t, s := b.prim(fv, a.kind, p, a.kind.String(), oneLine)
+		return t, s, endsWithHeredoc(s)
+	}
+}
+
+// elem / keyed address one element of the list / map attribute p points at.
+func (p vpath) elem(i int) vpath {
+	q := append(vpath{}, p...)
+	q[len(q)-1].idx = i
+	return q
+}
+
+func (p vpath) keyed(k string) vpath {
+	q := append(vpath{}, p...)
+	q[len(q)-1].key = &k
+	return q
+}
+
+func isZero(v reflect.Value) bool {
+	switch v.Kind() {
+	case reflect.Slice, reflect.Map:
+		return v.Len() == 0
+	}
+	return v.IsZero()
+}
+
+// body builds the document of one struct value.
+func (b *builder) body(ss *structSchema, v reflect.Value, p vpath) *bodyNode {
+	bn := &bodyNode{ss: ss}
+	plain := b.sp.plain
+	// a block with at most one attribute and no nested block may be written on one line
+	nAttr, nBlock := 0, 0
+	present := map[*attrSchema]bool{}
+	for _, a := range ss.attrs {
+		fv := v.Field(a.idx)
+		pr := true
+		if a.optional && isZero(fv) {
+			pr = !plain && b.rng.Intn(10) < 3 // an explicit zero is the same value
+		}
+		present[a] = pr
+		if pr {
+			nAttr++
+		}
+		if b.obs != nil {
+			if pr {
+				b.obs("present:" + ss.typ.Name() + "." + a.name)
+			} else {
+				b.obs("absent:" + ss.typ.Name() + "." + a.name)
+			}
+		}
+	}
+	for _, bs := range ss.blocks {
+		fv := v.Field(bs.idx)
+		n := 0
+		switch {
+		case bs.slice:
+			n = fv.Len()
+		case bs.ptr:
+			if !fv.IsNil() {
+				n = 1
+			}
+		default:
+			n = 1
+		}
+		nBlock += n
+		if b.obs != nil {
+			if n > 0 {
+				b.obs("present:" + ss.typ.Name() + "." + bs.name)
+			} else {
+				b.obs("absent:" + ss.typ.Name() + "." + bs.name)
+			}
+			if bs.slice && n > 1 {
+				b.obs("repeated:" + ss.typ.Name() + "." + bs.name)
+			}
+		}
+	}
+	oneLine := len(p) > 0 && nBlock == 0 && nAttr <= 1 && !plain && b.rng.Intn(3) == 0
+	bn.oneLine = oneLine
+
+	for _, a := range ss.attrs {
+		if !present[a] {
+			continue
+		}
+		ap := p.with(pf(a.name))
+		expr, spell, hd := b.attrExpr(a, v.Field(a.idx), ap, oneLine)
+		if oneLine && strings.ContainsAny(expr, "\r\n") {
+			oneLine = false
+			bn.oneLine = false
+		}
+		bn.items = append(bn.items, &attrNode{sch: a, name: a.name, expr: expr, heredocEnd: hd, path: ap, kind: a.kind.String(), spell: spell})
+	}
+	for _, bs := range ss.blocks {
+		fv := v.Field(bs.idx)
+		mk := func(sv reflect.Value, bp vpath) {
+			b.nblocks++
+			blk := &blockNode{sch: bs, typ: bs.name, path: bp}
+			for _, l := range bs.body.labels {
+				lp := bp.with(pelem{field: l.name, idx: -1, label: true})
+				var lt, lsp string
+				if ot, ok := b.override[lp.String()]; ok {
+					lt, lsp = ot, b.ovSpell[lp.String()]
+				} else {
+					lt, lsp, _ = b.sp.str(sv.Field(l.idx).String(), ctxLabel, true, "")
+				}
+				b.sp.note("label-" + lsp)
+				b.rec(lp, "label", lsp, lt)
+				blk.labels = append(blk.labels, lt)
+			}
+			blk.body = b.body(bs.body, sv, bp)
+			bn.items = append(bn.items, blk)
+		}
+		switch {
+		case bs.slice:
+			for i := 0; i < fv.Len(); i++ {
+				e := fv.Index(i)
+				if bs.ptr {
+					e = e.Elem()
+				}
+				mk(e, p.with(pi(bs.name, i)))
+			}
+		case bs.ptr:
+			if !fv.IsNil() {
+				mk(fv.Elem(), p.with(pf(bs.name)))
+			}
+		default:
+			mk(fv, p.with(pf(bs.name)))
+		}
+	}
+	if !plain {
+		b.shuffle(bn)
+		b.trivia(bn)
+	}
+	return bn
+}
+
+// shuffle permutes the items of a body; blocks of one type keep their relative order.
+func (b *builder) shuffle(bn *bodyNode) {
+	items := bn.items
+	orig := append([]node{}, items...)
+	for i := len(items) - 1; i > 0; i-- {
+		j := b.rng.Intn(i + 1)
+		items[i], items[j] = items[j], items[i]
+	}
+	byType := map[string][]int{}
+	for i, it := range items {
+		if blk, ok := it.(*blockNode); ok {
+			byType[blk.typ] = append(byType[blk.typ], i)
+		}
+	}
+	for typ, pos := range byType {
+		if len(pos) < 2 {
+			continue
+		}
+		var inOrder []node
+		for _, it := range orig {
+			if blk, ok := it.(*blockNode); ok && blk.typ == typ {
+				inOrder = append(inOrder, it)
+			}
+		}
+		for k, ix := range pos {
+			items[ix] = inOrder[k]
+		}
+	}
+}
+
+func (b *builder) trivia(bn *bodyNode) {
+	if bn.oneLine {
+		return
+	}
+	var out []node
+	for i := 0; i <= len(bn.items); i++ {
+		for b.rng.Intn(5) == 0 {
+			var t string
+			switch b.rng.Intn(5) {
+			case 0, 1:
+				t = b.sp.ws(0, 3)
+				b.sp.note("blank-line")
+			case 2:
+				t = b.sp.lineComment()
+				b.sp.note("comment-line")
+			case 3:
+				t = b.sp.lineComment()
+				b.sp.note("comment-line")
+			default:
+				t = b.sp.blockComment()
+				b.sp.note("comment-block")
+			}
+			out = append(out, &triviaNode{text: t})
+		}
+		if i < len(bn.items) {
+			out = append(out, bn.items[i])
+		}
+	}
+	bn.items = out
+}
+
+// ---- renderer ----
+
+type renderer struct {
+	sp     *speller
+	rng    interface{ Intn(int) int }
+	buf    []byte
+	indent string
+}
+
+func (r *renderer) w(s string) { r.buf = append(r.buf, s...) }
+
+func (r *renderer) ind(depth int) {
+	if r.sp.plain {
+		r.w(strings.Repeat("  ", depth))
+		return
+	}
+	r.w(strings.Repeat(r.indent, depth))
+	if r.rng.Intn(12) == 0 {
+		r.w(r.sp.ws(0, 3))
+	}
+}
+
+func (r *renderer) maybeInline() {
+	if !r.sp.plain && r.rng.Intn(25) == 0 {
+		r.w(" " + r.sp.inlineComment() + " ")
+		r.sp.note("comment-inline")
+	}
+}
+
+func (r *renderer) attr(a *attrNode) {
+	a.sp.s = len(r.buf)
+	r.w(a.name)
+	r.maybeInline()
+	r.w(r.sp.ws(0, 3) + "=" + r.sp.ws(0, 3))
+	if r.sp.plain {
+		r.buf = r.buf[:a.sp.s]
+		r.w(a.name + " = ")
+	}
+	r.w(a.expr)
+	a.sp.e = len(r.buf)
+}
+
+func (r *renderer) trailing() {
+	if r.sp.plain {
+		return
+	}
+	switch r.rng.Intn(14) {
+	case 0:
+		r.w(" " + r.sp.lineComment())
+		r.sp.note("comment-trailing")
+	case 1:
+		r.w(" " + r.sp.inlineComment())
+		r.sp.note("comment-inline")
+	case 2:
+		r.w(r.sp.ws(1, 3))
+	}
+}
+
+func (r *renderer) block(blk *blockNode, depth int) {
+	blk.sp.s = len(r.buf)
+	r.w(blk.typ)
+	for _, l := range blk.labels {
+		r.w(r.sp.ws(1, 2) + l)
+	}
+	r.w(r.sp.ws(0, 2))
+	r.w("{")
+	if blk.body.oneLine {
+		var only *attrNode
+		for _, it := range blk.body.items {
+			if a, ok := it.(*attrNode); ok {
+				only = a
+			}
+		}
+		if only != nil {
+			r.w(r.sp.ws(0, 2))
+			r.attr(only)
+			r.w(r.sp.ws(0, 2))
+		} else {
+			r.w(r.sp.ws(0, 2))
+		}
+		r.w("}")
+		r.sp.note("block-one-line")
+	} else {
+		r.trailing()
+		r.w(r.sp.nl)
+		r.body(blk.body, depth+1)
+		r.ind(depth)
+		r.w("}")
+	}
+	blk.sp.e = len(r.buf)
+}
+
+func (r *renderer) body(bn *bodyNode, depth int) {
+	for _, it := range bn.items {
+		r.ind(depth)
+		switch n := it.(type) {
+		case *triviaNode:
+			r.w(n.text)
+		case *attrNode:
+			r.attr(n)
+			if !n.heredocEnd {
+				r.trailing()
+			}
+		case *blockNode:
+			r.block(n, depth)
+			r.trailing()
+		}
+		r.w(r.sp.nl)
+	}
+}
+
+// render writes the whole file and fills in the spans.
+func render(sp *speller, rng interface{ Intn(int) int }, root *bodyNode, bom bool) []byte {
+	r := &renderer{sp: sp, rng: rng}
+	r.indent = []string{"  ", "    ", "\t", "", " "}[rng.Intn(5)]
+	if bom {
+		r.w("\xef\xbb\xbf")
+	}
+	r.body(root, 0)
+	return r.buf
+}
+
+func countBlocks(bn *bodyNode) int {
+	n := 0
+	for _, it := range bn.items {
+		if blk, ok := it.(*blockNode); ok {
+			n += 1 + countBlocks(blk.body)
+		}
+	}
+	return n
+}
